@@ -33,6 +33,46 @@ Theorem C02_mode_indices_valid :
 Proof. exact rd_modes_wf. Qed.
 Print Assumptions C02_mode_indices_valid.
 
+(* whatever bytes are presented as a set-up header: if the parser accepts them,
+   there are 1..256 books and 1..64 floors, residues, mappings and modes, and
+   every cross reference is valid - floor classes name existing books, floor 0
+   and residue value books exist, carry values and have at least one dimension,
+   phrasebooks have partitions^dim <= entries, posts are distinct and at most
+   VIF_POSIT, coupling pairs are distinct channels, multiplex/submap/mode
+   entries name existing submaps, floors, residues and mappings *)
+Theorem C02_accepted_setup_is_well_formed :
+  forall channels bs s, unpack_setup channels bs = Some s -> setup_wf channels s.
+Proof. exact unpack_setup_wf. Qed.
+Print Assumptions C02_accepted_setup_is_well_formed.
+
+(* ... and that is the only way a set-up enters the decoder state: the
+   invariant is preserved by EVERY packet handed to vorbis_synthesis_headerin,
+   in any order, with any flags *)
+Definition HInv (s : hstate) : Prop :=
+  forall x, h_setup s = Some x -> exists i, h_ident s = Some i /\ setup_wf (i_channels i) x.
+
+Theorem C02_header_state_well_formed :
+  HInv h_init /\ forall s bos pkt, HInv s -> HInv (snd (headerin s bos pkt)).
+Proof.
+  split; [intros x H; discriminate|].
+  intros s bos pkt Hinv. unfold headerin.
+  repeat match goal with
+         | |- context [match ?x with _ => _ end] =>
+             match x with
+             | context [match _ with _ => _ end] => fail 1
+             | _ => destruct x eqn:?
+             end
+         end;
+    cbn [snd]; try exact Hinv; intros x Hx; cbn [h_setup h_ident] in *; try discriminate.
+  all: try (match goal with H : h_ident ?s0 = None |- _ =>
+              apply Hinv in Hx; destruct Hx as [i' [Hi' _]]; rewrite Hi' in H; discriminate end).
+  all: try (apply Hinv in Hx; exact Hx).
+  all: try (apply Hinv in Hx; destruct Hx as [i' [Hi' Hw]];
+            match goal with H : h_ident ?s0 = Some ?i0 |- _ => rewrite H in Hi'; inversion Hi'; subst; eexists; split; [reflexivity|exact Hw] end).
+  all: try (inversion Hx; subst; eexists; split; [reflexivity|eapply unpack_setup_wf; eassumption]).
+Qed.
+Print Assumptions C02_header_state_well_formed.
+
 (* floor 1: at most VIF_POSIT posts, so fit_value[j+k] stays inside its array *)
 Theorem C02_floor1_post_count :
   forall pc classes rb bs posts r, rd_posts pc classes rb 0 bs = Some (posts, r) ->
